@@ -173,3 +173,24 @@ package putsvc
 //@   property C25
 //@   callee (*put.distributedTarget).saveObject$5
 //@   requires [position_of_the_rule_applied] a0 == i && a1 == ruleIdx
+
+// ---- C24 / C31 (whole objects arriving by replication): ValidateAndStoreObjectLocally gets
+// the object in one piece; there is no streaming target behind it that would compare the
+// final size, so it accepts the object only if the payload it carries has exactly the
+// declared length (not less: a truncated object with matching checksum of the short payload
+// must not be stored) and the declared length is within the limit.
+//@ ghost pred carriedPayloadLen() int
+//@ ghost pred declaredPayloadSize() uint64
+//@ callrule c24_local_store_payload in (*Service).ValidateAndStoreObjectLocally
+//@   property C24 C31
+//@   callee (object.Object).Payload, (*object.Object).Payload
+//@   pureeffect
+//@   defines len(result) == carriedPayloadLen()
+//@ callrule c24_local_store_declared_size in (*Service).ValidateAndStoreObjectLocally
+//@   property C24 C31
+//@   callee (object.Object).PayloadSize, (*object.Object).PayloadSize
+//@   pureeffect
+//@   defines result == declaredPayloadSize()
+//@ func (*Service).ValidateAndStoreObjectLocally
+//@   property C24 C31
+//@   ensures [stored_only_with_exactly_the_declared_payload] err == nil ==> declaredPayloadSize() == uint64(carriedPayloadLen())
